@@ -154,30 +154,39 @@ class Folder:
         return out
 
     def _comp(self, n, local_enum):
-        """comprehension with one generator over a foldable iterable: [(bindings), ...] for which every `if` folds to true"""
-        if len(n.generators) != 1:
-            raise Unfoldable(norm(n))
-        g = n.generators[0]
-        it = self.fold(g.iter, local_enum)
-        if isinstance(it, dict):
-            it = list(it)
-        if not isinstance(it, (list, tuple)) or len(it) > 4096:
-            raise Unfoldable(norm(n))
+        """comprehension over foldable iterables (generators nest like for loops): [(bindings), ...] for which every `if` folds to true"""
         saved = self._locals
         rows = []
-        try:
+
+        def rec(gi, loc):
+            if gi == len(n.generators):
+                rows.append(loc)
+                if len(rows) > 8192:
+                    raise Unfoldable(norm(n))
+                return
+            g = n.generators[gi]
+            if g.is_async:
+                raise Unfoldable(norm(n))
+            self._locals = loc
+            it = self.fold(g.iter, local_enum)
+            if isinstance(it, dict):
+                it = list(it)
+            if not isinstance(it, (list, tuple)) or len(it) > 4096:
+                raise Unfoldable(norm(n))
             for item in it:
-                loc = dict(saved or {})
+                loc2 = dict(loc)
                 if isinstance(g.target, ast.Name):
-                    loc[g.target.id] = item
+                    loc2[g.target.id] = item
                 elif isinstance(g.target, ast.Tuple) and isinstance(item, (tuple, list)) and len(item) == len(g.target.elts) and \
                         all(isinstance(x, ast.Name) for x in g.target.elts):
-                    loc.update({x.id: v for x, v in zip(g.target.elts, item)})
+                    loc2.update({x.id: v for x, v in zip(g.target.elts, item)})
                 else:
                     raise Unfoldable(norm(n))
-                self._locals = loc
+                self._locals = loc2
                 if all(self.fold(c, local_enum) for c in g.ifs):
-                    rows.append(loc)
+                    rec(gi + 1, loc2)
+        try:
+            rec(0, dict(saved or {}))
         finally:
             self._locals = saved
         return rows
